@@ -95,7 +95,9 @@ def run_job(job, outdir, idx):
         # explore: do not stop at the first report, write reports to files (exit codes are not trusted)
         env["GORACE"] = f"halt_on_error=0 log_path={outdir}/race{idx}"
     if os.environ.get("VERIF_COVER"):
-        env["GOCOVERDIR"] = os.environ["VERIF_COVER"]
+        # -race builds count in atomic mode, which covdata refuses to mix with the others
+        env["GOCOVERDIR"] = os.environ["VERIF_COVER"] + ("_atomic" if job["variant"] == "race" else "")
+        os.makedirs(env["GOCOVERDIR"], exist_ok=True)
     wd = job.get("watchdog", 1500)
     cmd = ["timeout", "-s", "QUIT", "-k", "20", str(wd)] + args
     with open(log, "w") as lf:
